@@ -3,7 +3,7 @@
    as a small syntax tree with a byte-exact renderer and an evaluator over the rows the writer stored.
 
    WITH fp as ( <fingerprint selection: property C17> ),
-        raw as ( SELECT arrayMap(x -> (<ms_proj>), tree) as tree, functions FROM <table>
+        raw as ( SELECT [ DISTINCT ]arrayMap(x -> (<ms_proj>), tree) as tree, functions FROM <table>
                  WHERE ((timestamp_ns) >= (<from>)) and ((timestamp_ns) < (<to>)) and (fingerprint IN (fp)) and (<matchers>)),
         pre_joined as ( SELECT rtree FROM raw array JOIN raw.tree as rtree ),
         joined as ( SELECT (<ms_out>) as tree FROM pre_joined GROUP BY <ms_group> ORDER BY <ms_order> LIMIT <ms_limit>)
@@ -13,6 +13,10 @@
    rendering of the parsed tree must equal the text byte for byte), evaluates it here on the stored rows of the case and
    compares with the rows that were handed to the service.  The fingerprint selection and the label matchers are opaque
    texts here (they select WHICH profiles are read: property C17); the time window is evaluated.
+   [ms_distinct]: the raw select is a SELECT DISTINCT (the sql builder writes " SELECT " ++ " DISTINCT "): rows of
+   `raw` -- one per stored profile: (projected tree array, functions array) -- that are equal collapse into one BEFORE the
+   ARRAY JOIN / GROUP BY sum.  PlanMergeTraces does not set it today and [stmt_ok] refuses it; the evaluator interprets
+   it, so that a statement carrying it is judged on databases with repeated profiles (it loses their weight).
    Executable definitions only. *)
 From Coq Require Import List NArith ZArith Bool String Ascii.
 From Qryn Require Import model.Pprof model.ProfTree.
@@ -31,7 +35,8 @@ Record merge_stmt := {
   ms_types : list string;                                        (* the 'type:unit' literals, by index *)
   ms_proj : list tsel; ms_from : Z; ms_to : Z;
   ms_out : list gsel; ms_group : list N; ms_order : list N; ms_limit : Z;
-  ms_tree_agg : aggfn; ms_fn_agg : aggfn }.
+  ms_tree_agg : aggfn; ms_fn_agg : aggfn;
+  ms_distinct : bool }.                                          (* raw is a SELECT DISTINCT *)
 
 (* ------------------------------------------------------------------ rendering *)
 Open Scope string_scope.
@@ -67,7 +72,7 @@ Definition render_agg (a : aggfn) : string :=
   match a with GroupArray => "groupArray" | GroupUniqArrayArray => "groupUniqArrayArray" end.
 
 Definition render_stmt (s : merge_stmt) : string :=
-  "WITH fp as ( " ++ ms_fp s ++ "),raw as ( SELECT arrayMap(x -> (" ++ join ", " (map (render_tsel (ms_types s)) (ms_proj s)) ++
+  "WITH fp as ( " ++ ms_fp s ++ "),raw as ( SELECT " ++ (if ms_distinct s then " DISTINCT " else "") ++ "arrayMap(x -> (" ++ join ", " (map (render_tsel (ms_types s)) (ms_proj s)) ++
   "), tree) as tree, functions FROM " ++ ms_table s ++ " WHERE ((timestamp_ns) >= (" ++ str_of_Z (ms_from s) ++
   ")) and ((timestamp_ns) < (" ++ str_of_Z (ms_to s) ++ ")) and (fingerprint IN (fp)) and (" ++ ms_matchers s ++
   ")),pre_joined as ( SELECT rtree FROM raw array JOIN raw.tree as rtree ),joined as ( SELECT (" ++
@@ -82,7 +87,8 @@ Close Scope string_scope.
    a stored element of the `tree` column: (parent_id, function_id, node_id, [(type name, self, total)]);
    type names are tokens (the index of the 'type:unit' string in the case's table) *)
 Record selem := { e_p : N; e_f : N; e_i : N; e_vals : list (Z * (Z * Z)) }.
-Record sprof := { sp_ts : Z; sp_tree : list selem }.
+(* a stored profile: timestamp, the `tree` column, the `functions` column (function id, name token) *)
+Record sprof := { sp_ts : Z; sp_tree : list selem; sp_funcs : list (N * Z) }.
 
 Inductive val := VU (u : N) | VI (z : Z) | VErr.
 Definition val_eqb (a b : val) : bool :=
@@ -160,11 +166,33 @@ Fixpoint all_some {A} (l : list (option A)) : option (list A) :=
   | None :: _ => None
   end.
 
+Fixpoint leqb {A} (eqb : A -> A -> bool) (a b : list A) : bool :=
+  match a, b with
+  | [], [] => true
+  | x :: a', y :: b' => eqb x y && leqb eqb a' b'
+  | _, _ => false
+  end.
+
+(* SELECT DISTINCT over the rows of `raw` (one row per stored profile of the window): two rows are the same row when
+   their projected tree arrays are equal element by element, in order, and their functions arrays are; the first
+   occurrence of every row is kept *)
+Definition raw_row : Type := list (list val) * list (N * Z).
+Definition fn_eqb (a b : N * Z) : bool := N.eqb (fst a) (fst b) && Z.eqb (snd a) (snd b).
+Definition raw_eqb (a b : raw_row) : bool := leqb key_eq (fst a) (fst b) && leqb fn_eqb (snd a) (snd b).
+Fixpoint distinct_by {A} (e : A -> A -> bool) (l : list A) : list A :=
+  match l with
+  | [] => []
+  | x :: r => x :: filter (fun y => negb (e x y)) (distinct_by e r)
+  end.
+Definition raw_of (toks : list Z) (proj : list tsel) (p : sprof) : raw_row :=
+  (map (fun x => eval_proj toks x None proj) (sp_tree p), sp_funcs p).
+
 (* the rows of `_tree` (None: the statement does not produce 5-tuples of the expected types, or uses an aggregate
    other than groupArray for the tree) *)
 Definition eval_merge_stmt (toks : list Z) (s : merge_stmt) (db : list sprof) : option (list row) :=
   let window := filter (fun p => Z.leb (ms_from s) (sp_ts p) && Z.ltb (sp_ts p) (ms_to s)) db in
-  let pre := flat_map (fun p => map (fun x => eval_proj toks x None (ms_proj s)) (sp_tree p)) window in
+  let raw := map (raw_of toks (ms_proj s)) window in
+  let pre := flat_map fst (if ms_distinct s then distinct_by raw_eqb raw else raw) in
   let groups := fold_left (fun gs t => add_to_group gs (map (field t) (ms_group s)) t) pre [] in
   let sorted := match ms_order s with
                 | [n] => fold_left (fun acc g => insert_sorted n g acc) groups []
@@ -190,17 +218,11 @@ Definition gsel_eqb (a b : gsel) : bool :=
   | GSum n, GSum m => N.eqb n m
   | _, _ => false
   end.
-Fixpoint leqb {A} (eqb : A -> A -> bool) (a b : list A) : bool :=
-  match a, b with
-  | [], [] => true
-  | x :: a', y :: b' => eqb x y && leqb eqb a' b'
-  | _, _ => false
-  end.
 Definition stmt_ok (ty : nat) (s : merge_stmt) : bool :=
   leqb tsel_eqb (ms_proj s) [TField 1; TField 2; TField 3; TFirst ty 4 1 2; TAf 3] &&
   leqb gsel_eqb (ms_out s) [GKey 1; GKey 2; GKey 3; GSum 4; GSum 5] &&
   leqb N.eqb (ms_group s) [1; 2; 3]%N && leqb N.eqb (ms_order s) [1%N] &&
-  Z.eqb (ms_limit s) the_limit &&
+  Z.eqb (ms_limit s) the_limit && negb (ms_distinct s) &&
   match ms_tree_agg s, ms_fn_agg s with GroupArray, GroupUniqArrayArray => true | _, _ => false end.
 
 (* ------------------------------------------------------------------ specification side
